@@ -3,6 +3,8 @@
 //!
 //!   verif_replay gen <schema-file> <query-file> <options-json>
 //!       -> "OK\n<token stream>"  |  "ERR\n<message>"   (panics keep their message on stderr, exit 101)
+//!   verif_replay gen-seq <options-json> <schema1> <query1> <schema2> <query2> ...
+//!       -> one line "OK\t<tokens>" | "ERR\t<message>" per pair, all generated in this one process
 //!   verif_replay display <error-json>
 //!       -> Display of a graphql_client::Error built from JSON
 //!   verif_replay response <body-json>
@@ -73,6 +75,20 @@ fn main() {
                     println!("ERR");
                     println!("{}", e);
                 }
+            }
+        }
+        Some("gen-seq") => {
+            // several (schema, query) pairs generated one after the other in this one process:
+            // verif_replay gen-seq <options-json> <schema1> <query1> <schema2> <query2> ...
+            let opts: serde_json::Value = serde_json::from_str(args.get(2).map(|s| s.as_str()).unwrap_or("{}")).expect("options json");
+            let mut i = 3;
+            while i + 1 < args.len() {
+                let o = options_from(&opts);
+                match generate_module_token_stream(PathBuf::from(&args[i + 1]), &PathBuf::from(&args[i]), o) {
+                    Ok(ts) => println!("OK\t{}", ts.to_string().replace('\n', " ")),
+                    Err(e) => println!("ERR\t{}", e.to_string().replace('\n', " ")),
+                }
+                i += 2;
             }
         }
         Some("display") => {
